@@ -238,11 +238,11 @@ def run(out, exe, tier, res):
     out.distinct_nontrivial = len(distinct)
     out.samples = samples + out.samples
     out.rule = ("event logs in both directions. library->reference: for every protocol the library seals/signs messages of EVERY length 0..130 (public: strided), the "
-                "boundary catalogue to 4 KiB, 64 KiB (thorough 256 KiB) and random lengths, with footer/assertion in {none, explicit empty, ASCII, non-ASCII, JSON, random}; "
+                "boundary catalogue to 4 KiB, 64 KiB (thorough 256 KiB) and random lengths, with footer/assertion in {none, explicit empty, ASCII, non-ASCII, JSON, random}, plus series of tokens sealed through ONE key object and series sealed from ONE core builder object (every token of a series is judged); "
                 "the reference recomputes local tokens from (key, nonce, message, footer, assertion) and demands byte identity, verifies public tokens, opens builder-produced "
                 "tokens (generic and batteries layers, random internal nonce), and checks that the footer segment is present iff the footer is non-empty. reference->library: "
                 "the reference builds a token for the same inputs with a fresh nonce/salt, plus v1.local tokens whose wire nonce puts the AES-CTR counter at 8/32/64/128-bit "
-                "carry boundaries; the library must open each to exactly the message. distinct_nontrivial = distinct (protocol, direction/layer, verdict class, message length "
+                "carry boundaries; the library must open each to exactly the message, presented alone and once more through ONE key object per (protocol, key) that opens the whole series. distinct_nontrivial = distinct (protocol, direction/layer, verdict class, message length "
                 "(exact to 140, then bit length), footer class, assertion class) that agreed")
     out.assumptions += ["the reference model could share a misreading of the specification with the implementation; it is pinned to all 48 official vectors (selftest run at the start of this check) and every primitive carries its RFC/FIPS known-answer test",
                         "Ed25519/ECDSA byte identity of signatures is informational; the property asks for mutual verification"]
